@@ -339,6 +339,7 @@ def cases(rng, tier):
         scripts.append(random_script(rng, depth_max=3 if tier == "quick" else rng.choice([3, 4, 6]), big=(i % 50 == 0)))
     cs, rejected = build_cases(scripts)
     cases.rejected = rejected
+    cases.last = cs
     return cs
 
 
@@ -432,6 +433,15 @@ def extra_stage(ctx, driver, stats):
         "string_op.Lscr": "F40: the expected text says `start`, which is not a Lingo operator (unreadable)",
         "timeout.Lscr": "string constant containing QUOTE/RETURN is printed as a `&` expression (C11, F15-F18)"})
     stats["rejected_by_scheme"] = getattr(cases, "rejected", 0)
+    # bounded companion of theorem read_print_expr: reference printer -> text -> strict reference reader on every generated script
+    # (covers the constructs the theorem's fragment leaves out: the-forms, method calls, statements, token -> text -> token)
+    cs_all = getattr(cases, "last", [])
+    outs = L.ask_parallel(["lspec printread " + L.hexs(c.spec["script"]) for c in cs_all])
+    bad = [(c, o) for c, o in zip(cs_all, outs) if o != "same"]
+    ctx.cov["printer_reader_roundtrip"] = dict(scripts=len(cs_all), same=len(cs_all) - len(bad))
+    for c, o in bad[:3]:
+        from core import Failure
+        ctx.failures.append(Failure("C", None, None, "reference printer / reader disagree (spec layer): " + (o or "")[:60] + " on " + c.spec["script"][:300]))
     if v["rate"] < 0.9:
         from core import Failure
         ctx.failures.append(Failure("C", None, None, "compile scheme no longer reproduces the fixtures: " + json.dumps(v["not_reproduced"])[:400]))
